@@ -20,6 +20,8 @@ ASSUMPTIONS = ["'1970..2100' is read as the local calendar date: early 1970-01-0
 
 _SCHEMA = []
 _CHECKER = []
+_SCHEMA_TEXT = []
+_N = [0]
 
 
 def plan(tier):
@@ -32,6 +34,7 @@ def setup(ctx):
     import jsonschema
     from aw_core.schema import get_json_schema
     _SCHEMA.append(get_json_schema("event"))
+    _SCHEMA_TEXT.append(canon(_SCHEMA[0]))
     fc = jsonschema.FormatChecker()
     if "date-time" not in fc.checkers:
         raise RuntimeError("no date-time format checker available: schema validation would be vacuous")
@@ -183,6 +186,22 @@ def run_case(case, ctx):
         viols.append(("duration-setter-not-exact", f"given={dur!r} got={e2.duration!r}"))
     # JSON form
     jd = e.to_json_dict()
+    _N[0] += 1
+    if _N[0] % 500 == 0:
+        # the published schema is what get_json_schema hands out NOW - to a caller that asks after another caller has
+        # edited the dict it was given (a consumer deriving a stricter schema of its own): fetched afresh, compared with the
+        # text first seen, and the copy used so far is edited the way such a consumer would
+        from aw_core.schema import get_json_schema
+        fresh = get_json_schema("event")
+        if canon(fresh) != _SCHEMA_TEXT[0]:
+            viols.append(("published-schema-changed-after-a-caller-edited-its-copy",
+                          f"first seen={_SCHEMA_TEXT[0][:300]} now={canon(fresh)[:300]}"))
+        old = _SCHEMA[0]
+        _SCHEMA[0] = fresh
+        old.setdefault("required", []).extend(["duration", "data"])
+        old.setdefault("properties", {}).setdefault("data", {})["required"] = ["app", "title"]
+        old["properties"].pop("timestamp", None)
+        ctx.count("schema_refetched_after_editing_the_previous_copy")
     try:
         jsonschema.validate(jd, _SCHEMA[0], format_checker=_CHECKER[0])
         ctx.count("schema_validations")
